@@ -17,6 +17,7 @@ This module implements the :class:`.TDMProgram` class which acts as a representa
 """
 # pylint: disable=too-many-instance-attributes,attribute-defined-outside-init
 
+import copy
 import itertools
 from operator import itemgetter
 from collections.abc import Iterable
@@ -599,7 +600,11 @@ class TDMProgram(Program):
             if par_is_symbolic(params[i]):
                 params[i] = self.parameters[params[i].name][t % self.timebins]
 
-        self.append(cmd.op.__class__(*params), modes)
+        # a copy of the operation keeps what is not a parameter: inverse (dagger) flag, post-selection
+        # value, dark counts and other keyword settings
+        op = copy.copy(cmd.op)
+        op.p = params
+        self.append(op, modes)
 
     def assert_modes(self, device):
         """Check that the number of modes in the program is valid.
